@@ -2,6 +2,7 @@ package vlive
 
 import (
 	"fmt"
+	"os"
 	"time"
 
 	"github.com/relab/hotstuff"
@@ -67,6 +68,11 @@ func liveCampaign(prop string, p vbase.Params, r *vbase.Result) {
 		o := GenOpts(rng)
 		if (prop == "C09" || prop == "C12") && i%2 == 0 && !o.Kauri {
 			o.Kauri, o.N, o.Leader, o.Crash, o.Byz = true, 7, leaderrotation.NameTree, 0, map[hotstuff.ID]string{}
+		}
+		if os.Getenv("VERIF_LIVE_FORCE") == "crash06" {
+			// exploration aid (never used by MANIFEST commands): the configuration of one observed run, repeated
+			o = Opts{N: 4, ViewTimeout: 600 * time.Millisecond, WallCap: 25 * time.Second, Byz: map[hotstuff.ID]string{}, Ruleset: rules.NameChainedHotStuff, Scheme: crypto.NameEDDSA,
+				Leader: leaderrotation.NameRoundRobin, Batch: 2, Clients: 3, Cmds: 31, Crash: 2, CrashAfter: rng.Range(3, 46), Resubmit: rng.Bool()}
 		}
 		o.Label = fmt.Sprintf("%s/%d", prop, i)
 		o.Prop = prop
